@@ -47,6 +47,16 @@ func c01(c *Ctx) {
 			c.Violate(Violation{Signature: "C01/roundtrip/" + what, What: "Decode(Encode(h,id,serial,body)) differs", Input: req,
 				Observed: got, Required: stripCheck(want.Canon())})
 		}
+		if what == "checksum-special" {
+			// the generator solved the body for a check code of 0x7d / 0x7e: make sure it really is one (the
+			// escaped code is the last thing before the closing delimiter)
+			n := len(frame)
+			if n >= 4 && frame[n-3] == 0x7d && (frame[n-2] == 0x01 || frame[n-2] == 0x02) {
+				c.Count("checksum-special:hit")
+			} else {
+				c.Count("checksum-special:MISS")
+			}
+		}
 		if rng.Intn(8) == 0 || special { // also tie decode of the produced frame to the model
 			c.Do("decode "+out, special)
 		}
